@@ -20,6 +20,7 @@ THEOREMS = [
     "CKT.Sem.applyL_comm", "CKT.Sem.prim_comm", "CKT.C03PTM.applyL_rep", "CKT.C03PTM.ap_rep", "CKT.C03PTM.move_rep", "CKT.C03PTM.init_rep",
     "CKT.C03PTM.ptm", "CKT.C03PTM.transform_preserves_expectations_ptm", "CKT.Sem.resetM_is_channel_ptm", "CKT.Sem.swapM_is_channel_ptm",
 ]
+LEVEL_TEXT = ("structure/layout theorems of the marker-to-Move transformation + T03.3 (expectation values preserved) proved for the Pauli-expectation semantics of dynamic circuits with any gate matrices, Move = reset;swap (laws of C03Sem proved there, reset/swap matrices tied to the channel model); that this semantics is quantum mechanics in the Pauli basis is not formalised; model tied to the code by exact comparison")
 RULE = ("circuits on 1-4 qubits (one or several named registers, optional classical registers) with 0-4 wire-cut markers in random "
         "interleavings, CutWire instances or name-only 'cut_wire' gates (thorough: every interleaving of the marker pattern across qubits for small shapes), both factories (Move / wrapped Move); "
         "non-trivial = at least one marker; distinct by payload")
